@@ -44,6 +44,12 @@ the instrumented renderable of impl/impl_c10.py (VR10, built on C08's VR):
   model/DrawUse.v; judge: model/DrawUseTie.v ([dcheck10]: bit 2 = some entry saw finalized data,
   or the finalizer was not entered exactly once per render data object).
 
+* "ctor" and "nest" (props/c10_life.py, driver impl/impl_c10_life.py): faults DURING THE CONSTRUCTION of an
+  iterator (client padding code, allocation, interrupts at every line; the half-built object is dropped and
+  collected; model/IterCtor.v, judge model/IterCtorTie.v [ccheck]) and SEVERAL render-data objects alive at once
+  with nested / concurrent finalization (composite renderables, a second thread gated inside a finalizer;
+  model/FinNest.v, judge model/FinNestTie.v [ncheck]).
+
 model/IterFinTie.v judges inside Coq: [check10] / [ocheck10] = bit 1 (differs from the
 finalisation ghost of the code model Iter) + bit 2 (the observations alone contradict the
 property: double finalize, render on finalized data, leak, a caller's data finalized,
@@ -961,7 +967,10 @@ def run(ctx):
         "corr_name": "life of render data on the real RenderIterator / render() / str() / draw() over the "
                      "instrumented renderable VR10 == finalisation ghost of the Iter model (check10 / ocheck10 bit 1); "
                      "the observations alone satisfy the property (bit 2); drawio family: entry log of all "
-                     "renderable-defined code that receives the render data == model/DrawUse.v (dcheck10)",
+                     "renderable-defined code that receives the render data == model/DrawUse.v (dcheck10); ctor family: "
+                     "the half-built iterator a faulted constructor leaves behind and what its collection does == "
+                     "model/IterCtor.v (ccheck); nest family: per-object finalizer entries / flags after every step of "
+                     "scenarios with several render data objects == the machine of model/FinNest.v (ncheck)",
         "evaluations": len(variants),
         "distinct_nontrivial": len(nontrivial),
         "rule": f"{len(cases)} base cases ({n_corpus} corpus) expanded by fault enumeration: each history / one-shot "
@@ -989,7 +998,23 @@ def run(ctx):
                 "KeyboardInterrupt FOR ALL j, in a quarter of the cases combined with a failing q-th _render_; some cases "
                 "with a KeyboardInterrupt delivered at the k-th line executed inside draw()/_animate_ (quick: every "
                 "5th-11th line, thorough: mostly every line); non-trivial there: the interrupted-draw hook was entered, "
-                "or an asynchronous interrupt hit after the render data existed.",
+                "or an asynchronous interrupt hit after the render data existed.  ctor: one construction by "
+                "RenderIterator(...) / _from_render_data_(finalize=False) / (finalize=True) (frames {2,3,5,INDEFINITE}, loops "
+                "{1,2,-1}, cache {False,True,2,100}, ExactPadding or a client Padding subclass) with one of: no fault, the "
+                "client padding's _get_exact_dimensions_ / get_padded_size raising PaddingError / RuntimeError / "
+                "KeyboardInterrupt / MemoryError (first consulted by the priming next()), frame_count=sys.maxsize with the "
+                "cache on, failing _get_render_size_ / _get_render_data_, loops=0, cache=0, foreign render arguments; for the "
+                "corpus (every constructor x every fault) and 30% (thorough 50%) of the generated cases additionally a "
+                "KeyboardInterrupt at the k-th line executed inside the package during the constructor (bare `try:` lines "
+                "and lines of close / finalize / __del__ excluded), every k for the corpus and mostly in the thorough tier, "
+                "every 3rd-7th in the quick tier; non-trivial there: the constructor failed while priming.  nest: forests "
+                "of 2-6 composite renderables (finalizer nesting depth <= 3, <= 2 children per node, child modes own / give / "
+                "keep_fin / keep_drop / keep_leak), scripts of 3-9 steps over two iterator slots and one-off operations "
+                "(iter with the three constructors, next, close, drop, exhaust, the owner's finalize, render, str, draw "
+                "still / animated), a failing _render_ in 20%; in 30% of the cases with two roots a second thread performs "
+                "close() and waits at an Event gate inside the finalizer of the root's (40%: of its first child's) render "
+                "data while the main thread performs 1-4 steps on the other tree; non-trivial there: some finalizer "
+                "finalizes another object, or two threads.",
         "samples": samples,
         "histogram": h,
         "mismatches": mismatches,
@@ -1016,6 +1041,11 @@ def run(ctx):
             "check_size=False; the frame source of the instrumented renderable is modelled in DrawUseTie.pulls_of "
             "(n * loops frames, later passes from the cache when caching is on; INDEFINITE: `total` frames then "
             "StopIteration out of _render_); asynchronous interrupts are judged by the specification side only",
+            "ctor / nest: 'collected' = CPython reference counting + gc.collect(); a KeyboardInterrupt is delivered at "
+            "line events (sys.settrace) of package code entered during the constructor, never on a bare `try:` line "
+            "(no signal poll there in CPython >= 3.11) nor inside close / finalize / __del__ / _finalize_render_data_; "
+            "nest: no finalize() of an object is attempted while its own finalizer runs (scenarios are trees); finalizers "
+            "do not raise",
             "_finalize_render_data_ may raise (oracle fr in model/IterFin.v; exercised with RuntimeError at scheduled "
             "invocations); RenderIterator.close() is modelled as REPAIRED by pending_fixes/"
             "C10_close_finalizer_raises.diff (_closed set in a finally); the skeleton lemmas still treat Finalize as a "
@@ -1029,5 +1059,10 @@ def run(ctx):
             "drawio: overrides _handle_interrupted_draw_ / _clear_frame_ / _finalize_render_data_ / _render_ of the test "
             "renderable to log RenderData.finalized at entry, replaces sys.stdout by a counting StringIO and the "
             "module's sleep by a counting stub; harness/impl/asyncfault.py (sys.settrace) for asynchronous interrupts",
+            "impl driver impl_c10_life.py: finds the half-built RenderIterator in the frames of the exception's traceback "
+            "(locals `self` / `new`) and reads its __dict__ and the generator state; holds every render data object in a "
+            "registry until the final release (so that a missed finalize() is not masked by RenderData.__del__), except "
+            "the objects a scenario's finalizer is to drop itself; computes, from public outcomes only, which render "
+            "data objects each step's operation ENDS the life of, and the declared finalizer bodies",
         ],
     }
